@@ -10,6 +10,7 @@ from .. import designs, simdrv, sym, concrete
 from ..simdrv import Vars, run_sim, sym_env, CompiledModel, run_compiled
 from ..sym import SymMem, SymInt, to_bv
 from . import c04
+from . import c08 as _c08    # noqa: F401  (registers the MEM / ROM design families)
 
 PROP = 'C02'
 LEVEL = 'translation_validation'
@@ -80,6 +81,8 @@ def cases(tier, seed):
     # initial-state rules under a non-zero default_value: explicit zeros (reset_value=0, a 0 in register_value_map) must win
     regd = [dict(c, reset=r) for c in designs.op_cases([1, 3, 65], ops='w+', dests=('reg',)) for r in (None, 0, 1)]
     regd += designs.seq_cases(widths=(3,)) + designs.expr_cases(6 if tier == 'quick' else 30, seed + 77, n=5, maxw=5, nreg=2)
+    # memories narrower than the default value (no registers): every simulator reads the default reduced to the word width
+    regd += designs.op_cases([1, 2], ops='m') + [{'fam': 'MEM', 'aw': 2, 'bw': 2, 'nr': 2, 'nw': 1}]
     for c in regd:
         for dv in (1, 5):
             for rmap in ('none', 'zeros'):
@@ -271,6 +274,18 @@ def _run_case(case, ob, tier):
         if dv and any(dv > r.bitmask for r in block.wirevector_subset(pyrtl.Register)):
             ob.notes.append('default_value not representable in some register: outside the legal initial assignments, skipped')
             ob.fact('skipped', True)
+        elif dv and case['sim'] == 'fast' and any(dv >> m_.bitwidth for m_ in simdrv.mems_of(block).values()):
+            # a default wider than a memory word cannot be stored in the symbolic memory (its words have the memory's width):
+            # a plain-int witness run instead (inputs 0 and all-ones, the real dicts) - a bounded witness check, named as such
+            for pat in (0, 1):
+                mvw = {'inputs': {w_.name: {str(t): (w_.bitmask if pat else 0) for t in range(K)} for w_ in block.wirevector_subset(pyrtl.Input)}}
+                kw = dict(reg_init='reset', mem_init='default', default_value=dv, track='io')
+                ta, _, _ = concrete.sim_concrete(block, K, mvw, kind='sim', **kw)
+                tb, _, _ = concrete.sim_concrete(block, K, mvw, kind='fast', **kw)
+                diff = ['%s@%d: Simulation=%r FastSimulation=%r' % (n_, t, ta[n_][t], tb[n_][t]) for n_ in ta if n_ in tb for t in range(K)
+                        if ta[n_][t] != tb[n_][t]]
+                ob.fact('plain-int-witness:default-wider-than-memory-word:inputs-%s' % ('ones' if pat else 'zeros'), not diff,
+                        site + ':default_value:narrow-memory', detail=diff[:4])
         elif dv:
             # initial-state rules: register_value_map absent ('none') or holding explicit zeros, non-zero default_value
             rinit = 'reset' if case['rmap'] == 'none' else {r.name: 0 for r in block.wirevector_subset(pyrtl.Register)}
